@@ -26,7 +26,7 @@ var c09ChainIDs = []string{
 
 func TestC09_Replicas(t *testing.T) {
 	rec := recorder("C09")
-	rec.AddRule("rapid state machine over shuttermint call histories (apphist generator: 1-5 genesis keypers, all thresholds, votes on pooled candidate configurations, DKG result votes, check-ins, block-seen, DKG messages, replays, garbage, CheckTx interleaved; in half of the cases some CheckTx calls are made on one replica only - mempool traffic is not part of the block sequence - and CheckTx answers / remembered mempool state are compared again from the next Commit on) executed on 4 replicas, in half of the cases with state files and a different save schedule per replica and replicas that are stopped and continued from their state file; non-trivial = history in which some tally had two values at or over the threshold when consulted (order-sensitive decision exercised) or a configuration was accepted after a vote split; distinct by canonical history string")
+	rec.AddRule("rapid state machine over shuttermint call histories (apphist generator: 1-5 genesis keypers, all thresholds, votes on pooled candidate configurations, DKG result votes, check-ins, block-seen, DKG messages, replays, garbage, CheckTx interleaved; in half of the cases some CheckTx calls are made on one replica only, among them bursts of 9-13 transactions of one sender followed by a delivery of that sender - mempool traffic is not part of the block sequence - and CheckTx answers / remembered mempool state are compared again from the next Commit on) executed on 4 replicas, in half of the cases with state files and a different save schedule per replica and replicas that are stopped and continued from their state file; non-trivial = history in which some tally had two values at or over the threshold when consulted (order-sensitive decision exercised) or a configuration was accepted after a vote split; distinct by canonical history string")
 	rec.Assume("Go's per-range map iteration randomisation samples iteration orders; orders are not enumerated")
 	steps := 40
 	persistDir := t.TempDir()
@@ -81,6 +81,9 @@ func TestC09_Replicas(t *testing.T) {
 		}
 		if c.PrivateChecks > 0 {
 			labels = append(labels, "replicas-saw-different-mempool-traffic")
+		}
+		if c.Bursts > 0 {
+			labels = append(labels, "one-mempool-saw-more-than-the-per-block-limit-of-a-sender-before-its-delivery")
 		}
 		if c.Grafts > 0 {
 			labels = append(labels, "one-mempool-saw-a-delivered-signature-over-another-payload")
